@@ -11,7 +11,7 @@ encode = default_encode(SIG)
 decode = default_decode(SIG)
 TASK_REQS = 4000
 RULE = ('requests (a, b, c): pairs that agree on the top k digits and differ only below, differ only in the sign bit, have a zero top '
-        'digit with non-zero lower digits, equal pairs, +-1 neighbours, boundaries; clamp triples with lo <= hi and lo > hi; all 2^16 '
+        'digit with non-zero lower digits, equal pairs, +-1 neighbours, boundaries; clamp triples with lo <= hi (lo > hi is executed but not judged); all 2^16 '
         'pairs at 8 bits. Hash checked through a fixed FNV hasher on the same value reached by six different routes. Non-trivial: '
         'operands differ first at a digit below the top one, differ only in sign, or are equal; distinct = distinct request lines')
 
@@ -95,8 +95,9 @@ def model(cfg, ctx, group, args):
     exp['max'] = exp['ord_max'] = max(a, b)
     exp['eq_self'] = True
     if b > c:
-        exp['clamp'] = exp['ord_clamp'] = PANIC
-        cls.add('clamp with lo > hi (panics like the primitives)')
+        # the property defines clamp through the order of the denoted integers, which says nothing for lo > hi (the primitives panic; bnum does too today)
+        exp['clamp'] = exp['ord_clamp'] = core.ANY
+        cls.add('plain:clamp with lo > hi (not judged)')
     else:
         exp['clamp'] = exp['ord_clamp'] = min(max(a, b), c)
         if a < b:
@@ -142,7 +143,7 @@ def model(cfg, ctx, group, args):
     return exp, cls, relations
 
 
-REQUIRED = ['equal operands', 'differ only in the top bit', 'clamp with lo > hi (panics like the primitives)', 'clamp: below lo',
+REQUIRED = ['equal operands', 'differ only in the top bit', 'clamp: below lo',
             'clamp: above hi', 'positive value with zero top digit', 'plain:signs -+', 'plain:signs +-', 'plain:signs --'] + \
     [c + '@d%d' % d for d in (8, 16, 32, 64) for c in ('first difference below the top digit', 'first difference in the lowest digit',
                                                        'both negative, decided below the top digit')]
